@@ -6,6 +6,7 @@ package main
 
 import (
 	"fmt"
+	"os"
 	"go/constant"
 	"go/types"
 	"strings"
@@ -17,6 +18,86 @@ type ExternModel struct {
 	Effect string // pure | alloc | fs-read | fs-write | io-write | stdout | exit | flag
 	Assume string
 	Fn     func(e *Exec, fr *frame, st *State, ci ssa.CallInstruction, args []SV, rt types.Type) SV
+}
+
+// pureStdPkgs: standard-library packages whose functions are deterministic and touch nothing but their
+// arguments (A-std). Calls into them need no effect entry; where the body is within the modelled subset it
+// is executed like a helper of the module (so that, e.g., strings.Cut or slices.Contains need no model).
+var pureStdPkgs = map[string]bool{"slices": true, "strings": true, "strconv": true, "unicode": true, "unicode/utf8": true, "bytes": true,
+	"sort": true, "errors": true, "path": true, "cmp": true, "regexp": true, "math": true, "math/bits": true, "internal/stringslite": true}
+
+func pureStdFn(f *ssa.Function) bool {
+	if f == nil {
+		return false
+	}
+	g := f
+	if o := f.Origin(); o != nil {
+		g = o
+	}
+	for g.Parent() != nil {
+		g = g.Parent()
+	}
+	return g.Pkg != nil && pureStdPkgs[g.Pkg.Pkg.Path()]
+}
+
+// stdInlinable: the body of a pure standard-library function stays within the instruction subset the
+// executor models (no unsafe, no goroutines/defer/channels), and so do the functions it calls.
+func (e *Exec) stdInlinable(f *ssa.Function, depth int) (ok bool) {
+	if os.Getenv("GOVC_DEBUG") != "" {
+		defer func() { fmt.Fprintf(os.Stderr, "stdInlinable %s depth %d blocks %d pure %v -> %v\n", f, depth, len(f.Blocks), pureStdFn(f), ok) }()
+	}
+	if !pureStdFn(f) || len(f.Blocks) == 0 || depth > 3 {
+		return false
+	}
+	if v, ok := e.stdOK[f]; ok {
+		return v
+	}
+	if e.stdOK == nil {
+		e.stdOK = map[*ssa.Function]bool{}
+	}
+	e.stdOK[f] = false // recursion: not inlinable
+	for _, b := range f.Blocks {
+		for _, in := range b.Instrs {
+			switch x := in.(type) {
+			case *ssa.Go, *ssa.Defer, *ssa.RunDefers, *ssa.Select, *ssa.Send, *ssa.MakeChan, *ssa.MakeInterface, *ssa.TypeAssert, *ssa.ChangeInterface, *ssa.MakeClosure:
+				return false
+			case *ssa.Convert:
+				if b, ok := x.Type().Underlying().(*types.Basic); ok && b.Kind() == types.UnsafePointer {
+					return false
+				}
+				if b, ok := x.X.Type().Underlying().(*types.Basic); ok && b.Kind() == types.UnsafePointer {
+					return false
+				}
+			case *ssa.UnOp:
+				if _, ok := x.X.(*ssa.Global); ok {
+					return false
+				}
+			case ssa.CallInstruction:
+				c := x.Common()
+				if _, ok := c.Value.(*ssa.Builtin); ok {
+					continue
+				}
+				if c.IsInvoke() {
+					return false
+				}
+				cal := c.StaticCallee()
+				if cal == nil {
+					if _, isParam := c.Value.(*ssa.Parameter); isParam {
+						continue // a function value handed in by the caller
+					}
+					return false
+				}
+				if _, ok := externs[calleeKey(cal)]; ok {
+					continue
+				}
+				if !e.stdInlinable(cal, depth+1) {
+					return false
+				}
+			}
+		}
+	}
+	e.stdOK[f] = true
+	return true
 }
 
 var pureAccessorPkgs = map[string]bool{"go/types": true, "go/ast": true, "go/token": true, "go/constant": true}
@@ -69,6 +150,31 @@ func (e *Exec) extern(fr *frame, st *State, ci ssa.CallInstruction, name string,
 	}
 	if fobj != nil && fobj.Pkg() != nil && pureAccessorPkgs[fobj.Pkg().Path()] {
 		return e.pureAccessor(fr, st, ci, fobj, args, rt)
+	}
+	if fobj != nil && fobj.Pkg() != nil && pureStdPkgs[fobj.Pkg().Path()] {
+		// A-std: a deterministic function of its arguments without side effects; over scalar arguments it is an
+		// uninterpreted function, otherwise its result is unconstrained
+		st.events = append(st.events, Event{Kind: "extern", Callee: name, Mode: "pure", SVs: args, Instr: ci, Pc: append([]Term(nil), st.pc...)})
+		scalar := true
+		var ts []Term
+		for _, a := range args {
+			for i, l := range flatten(a.T) {
+				if isRefType(l.T) || i >= len(a.L) {
+					scalar = false
+				}
+			}
+			ts = append(ts, a.L...)
+		}
+		res := SV{T: rt}
+		for i, l := range flatten(rt) {
+			if scalar && !isRefType(l.T) {
+				res.L = append(res.L, e.ctx.uf(fmt.Sprintf("std:%s#%d", name, i), l.Sort, ts...))
+			} else {
+				res.L = append(res.L, e.ctx.fresh("std."+name, l.Sort))
+			}
+		}
+		e.wfAssume(st, res)
+		return res
 	}
 	// unknown dependency: fail closed
 	e.oblige(st, fnName(fr.fn)+"/unknown-external:"+name, []string{"C14", "C15", "C17", "C18"}, BoolLit(false),
@@ -301,6 +407,32 @@ func init() {
 		"(*strings.Replacer).Replace": {"pure", "replacer.Replace is a deterministic total function of its argument for the constant package-level replacer (uninterpreted)",
 			func(e *Exec, fr *frame, st *State, ci ssa.CallInstruction, args []SV, rt types.Type) SV {
 				return scalar(rt, e.ctx.uf("registry.replacer.Replace", SString, args[1].L[0]))
+			}},
+		"strings.Index": {"pure", "strings.Index(s, sub) is SMT str.indexof(s, sub, 0)",
+			func(e *Exec, fr *frame, st *State, ci ssa.CallInstruction, args []SV, rt types.Type) SV {
+				return scalar(rt, app(SInt, "str.indexof", args[0].L[0], args[1].L[0], IntLit(0)))
+			}},
+		"strings.Contains": {"pure", "strings.Contains(s, sub) is SMT str.contains",
+			func(e *Exec, fr *frame, st *State, ci ssa.CallInstruction, args []SV, rt types.Type) SV {
+				return scalar(rt, app(SBool, "str.contains", args[0].L[0], args[1].L[0]))
+			}},
+		"strings.HasPrefix": {"pure", "strings.HasPrefix(s, p) is SMT str.prefixof(p, s)",
+			func(e *Exec, fr *frame, st *State, ci ssa.CallInstruction, args []SV, rt types.Type) SV {
+				return scalar(rt, app(SBool, "str.prefixof", args[1].L[0], args[0].L[0]))
+			}},
+		"strings.HasSuffix": {"pure", "strings.HasSuffix(s, p) is SMT str.suffixof(p, s)",
+			func(e *Exec, fr *frame, st *State, ci ssa.CallInstruction, args []SV, rt types.Type) SV {
+				return scalar(rt, app(SBool, "str.suffixof", args[1].L[0], args[0].L[0]))
+			}},
+		"strings.TrimPrefix": {"pure", "strings.TrimPrefix(s, p): s without the leading p if it has one",
+			func(e *Exec, fr *frame, st *State, ci ssa.CallInstruction, args []SV, rt types.Type) SV {
+				s, p := args[0].L[0], args[1].L[0]
+				return scalar(rt, Ite(app(SBool, "str.prefixof", p, s), app(SString, "str.substr", s, app(SInt, "str.len", p), app(SInt, "str.len", s)), s))
+			}},
+		"strings.TrimSuffix": {"pure", "strings.TrimSuffix(s, p): s without the trailing p if it has one",
+			func(e *Exec, fr *frame, st *State, ci ssa.CallInstruction, args []SV, rt types.Type) SV {
+				s, p := args[0].L[0], args[1].L[0]
+				return scalar(rt, Ite(app(SBool, "str.suffixof", p, s), app(SString, "str.substr", s, IntLit(0), app(SInt, "-", app(SInt, "str.len", s), app(SInt, "str.len", p))), s))
 			}},
 		"strings.Trim":     {"pure", "strings.Trim is a deterministic total function (uninterpreted)", strUF("strings.Trim")},
 		"strings.TrimLeft": {"pure", "strings.TrimLeft is a deterministic total function (uninterpreted)", strUF("strings.TrimLeft")},
@@ -660,3 +792,13 @@ func sortSliceModel(e *Exec, fr *frame, st *State, ci ssa.CallInstruction, args 
 		qi.S, qj.S, r.S, qi.S, qi.S, qj.S, qj.S, n, And(defs...).S, r.S), SBool})
 	return SV{T: rt}
 }
+
+func init() {
+	// the strings package forwards to internal/stringslite since go1.23
+	for _, n := range []string{"Index", "HasPrefix", "HasSuffix", "TrimPrefix", "TrimSuffix"} {
+		if m, ok := externs["strings."+n]; ok {
+			externs["internal/stringslite."+n] = m
+		}
+	}
+}
+
